@@ -6,6 +6,7 @@ for d in sorted(glob.glob('/verif/seeded/*/')):
     name=os.path.basename(d.rstrip('/'))
     agent=json.load(open(d+'meta.agent.json')) if os.path.exists(d+'meta.agent.json') else {}
     prop=agent.get('property') or name[:3]
+    pre=json.load(open('/verif/seeded/round2_pre_tailoring.json')).get(name) if name.endswith('-r2') else None
     res=subprocess.run(['/verif/tools/tryseed.sh',d+'patch.diff',prop],capture_output=True,text=True).stdout
     fails=[l for l in res.splitlines() if l.startswith('FAIL') or l.startswith('UNDECIDED')]
     rules=sorted(set(re.findall(r'(C\d\d-R\d+)',' '.join(fails))))
@@ -22,6 +23,11 @@ for d in sorted(glob.glob('/verif/seeded/*/')):
       "detected":detected,
       "detected_by_rules":rules,
       "first_report":fails[0] if fails else None}
+    if pre is not None:
+        meta["detected_before_any_rule_was_added_for_it"]=pre
+    elif os.path.exists(d+'meta.json'):
+        old=json.load(open(d+'meta.json'))
+        if "rule_added_after_seeing_this_seed" in old: meta["rule_added_after_seeing_this_seed"]=old["rule_added_after_seeing_this_seed"]
     json.dump(meta,open(d+'meta.json','w'),indent=1)
     out[name]=(detected,rules)
     print(name,detected,rules)
